@@ -366,6 +366,12 @@ func C18(run *core.Run) {
 							} else {
 								passed, err = sendUniqueStep(ss, conc, id)
 							}
+							if err == nil && (i+len(p[0]))%2 == 0 {
+								// unrelated client traffic in between: the windows are not affected by it
+								if _, e2 := quotaStep(ss, "REQ", "q"); e2 != nil {
+									err = e2
+								}
+							}
 							run.Add("steps", 1)
 							e, ok := urel[fmt.Sprintf("%d|%s|%s|%s", size, strings.Join(win, ","), setKey(ever), id)]
 							if !ok {
